@@ -148,6 +148,10 @@ func (e *Engine) evalBuiltin(name string, cx *ast.CallExpr, st *State) Value {
 	case "len":
 		v := e.eval(cx.Args[0], st)
 		switch b := v.(type) {
+		case VMap:
+			c := mkApp("mapcard_"+sortTag(b.Has.Sort.key()), SInt, b.Has)
+			st.assume(mkCmp(">=", c, mkInt(0)))
+			return VTerm{T: c, Typ: intT}
 		case VSlice:
 			return VTerm{T: b.Len, Typ: intT}
 		case VStream:
@@ -185,6 +189,17 @@ func (e *Engine) evalBuiltin(name string, cx *ast.CallExpr, st *State) Value {
 			e.setSent(st, id, mkInt(0))
 			e.setConsumed(st, id, mkInt(0))
 			return VStream{ID: id, Elem: u.Elem()}
+		case *types.Map:
+			ks, vs, isSl, es := e.mapSorts(u)
+			m := VMap{Has: &Term{Op: "constarr", Args: []*Term{tFalse}, Sort: arraySortK(ks, SBool)}, Key: u.Key(), Elem: u.Elem()}
+			if isSl {
+				m.Val = e.fresh("map.val", arraySortK(ks, vs))
+				m.Len = &Term{Op: "constarr", Args: []*Term{mkInt(0)}, Sort: arraySortK(ks, SInt)}
+				_ = es
+			} else {
+				m.Val = e.fresh("map.val", arraySortK(ks, vs))
+			}
+			return m
 		case *types.Slice:
 			n := term(e.eval(cx.Args[1], st))
 			e.assert(st, mkCmp(">=", n, mkInt(0)), "make-slice-size", e.src(cx), nil)
@@ -323,6 +338,11 @@ func (e *Engine) mergeInto(dst *State, outs []Out, results *types.Tuple) Value {
 		}
 		if o.kind != fReturn {
 			unsup("inlined body falls off the end without return")
+		}
+		for i := range o.ret {
+			if i < results.Len() {
+				o.ret[i] = e.coerceNil(o.ret[i], results.At(i).Type())
+			}
 		}
 		if results.Len() == 1 {
 			return e.coerce(o.ret[0], results.At(0).Type())
@@ -785,6 +805,11 @@ func (e *Engine) callContract(c *Contract, fn *types.Func, recvName string, recv
 				unsup("modifies %s: unknown name in contract %s", n, callee)
 			}
 			if vt, ok := v.(VTerm); ok && vt.T.Sort == SRef {
+				if _, isIface := vt.Typ.Underlying().(*types.Interface); isIface || strings.HasPrefix(c.Key, "interface ") {
+					// interface-level contract: the object's ghost abstract state changes
+					e.havocGhostView(st, vt.T)
+					continue
+				}
 				if !e.localRefs[vt.T.String()] && !e.modifiesOK[vt.T.String()] {
 					e.staticObl("frame/call-modifies", where, false, callee+" modifies "+vt.T.String()+" which the caller may not modify", nil)
 				}
@@ -898,7 +923,13 @@ func (e *Engine) callContract(c *Contract, fn *types.Func, recvName string, recv
 	}
 	{
 		rk := strings.NewReplacer(".", "_", "interface ", "").Replace(c.Key)
-		e.callArgs[rk] = append(e.callArgs[rk], append([]Value(nil), args...))
+		cargs := append([]Value(nil), args...)
+		for _, cf := range clos {
+			if cf.idx < len(cargs) {
+				cargs[cf.idx] = cf.fv
+			}
+		}
+		e.callArgs[rk] = append(e.callArgs[rk], cargs)
 		if len(results) == 1 {
 			e.callRes[rk] = append(e.callRes[rk], results[0])
 		} else if len(results) > 1 {
